@@ -82,9 +82,13 @@ fn cache_seq(m: &HashMap<String, String>) {
   let (mut records, mut panics, mut hung) = (0usize, 0usize, 0usize);
   let mut by_profile: HashMap<String, usize> = HashMap::new();
   std::panic::set_hook(Box::new(|_| {}));
+  let only: i64 = get(m, "only", -1);
   for i in 0..programs {
     let profile = profiles[i % profiles.len()].clone();
     let hseed: u64 = master.random();
+    if only >= 0 && i as i64 != only {
+      continue;
+    }
     let mut rng = StdRng::seed_from_u64(hseed);
     let cfg = seq::random_cfg(&mut rng, &profile, ops, &kf);
     let out: seq::Out = Arc::new(Mutex::new(Vec::new()));
